@@ -10,15 +10,15 @@ CLAIMED = {
    note="Trusted: Lean kernel + propext/Classical.choice/Quot.sound; the hand-written models (validated by the correspondence run); the Go harness and bngdrv; atomic-step abstraction for concurrent callers."),
  "C04": dict(design="DESIGN.md §7 C04",
    technique="Lean 4 proof: session invariant + induction over frame sequences of the PPPoE server model, ghost authentication flag justified by a separate theorem; differential correspondence against the real frame handlers; monitor on the real session table and emitted frames",
-   text="Machine-checked theorems service_requires_auth, ipcp_ack_requires_auth, foreign_mac_inert and ghost_set_only_by_accepted_pap over an executable Lean model of pkg/pppoe/server.go for all frame sequences, MACs and RADIUS outcomes; model tied to /repo by driving the real handlers on an in-memory socket (verif hook) with a scripted loopback RADIUS server.",
+   text="Machine-checked theorems service_requires_auth, ipcp_ack_requires_auth, foreign_mac_inert and ghost_set_only_by_accepted_pap over an executable Lean model of pkg/pppoe/server.go for all frame sequences, MACs and RADIUS outcomes; model tied to /repo by driving the real handlers on an in-memory socket (verif hook) with a scripted loopback RADIUS server. The monitor run on the implementation (PppoeMon.monitorCore) is itself proved silent on every history of the model (Spec.C16PppoeWhole.monitor_silent_on_model); the PPP Authenticator (auth.go) is a second component (pppauth, Spec.C04Auth).",
    note="Trusted: Lean kernel + propext/Classical.choice/Quot.sound; the hand-written model (validated by the correspondence run); harness and bngdrv; well-formed frames only (malformed input is C09); RADIUS library."),
  "C05": dict(design="DESIGN.md §7 C05",
    technique="Lean 4 proof: counting invariant, pigeonhole, exhaustion-only-when-full, release-returns over the pool models; differential correspondence; abstract pool monitor on the implementation",
-   text="Machine-checked theorems that Stats() figures equal the true holder count, exhaustion implies every unit is held, and a release returns the unit, for all histories; tied to /repo by differential execution; known finding KF-bitmap-wide excluded by an explicit clause.",
+   text="Machine-checked theorems that Stats() figures equal the true holder count, exhaustion implies every unit is held, and a release returns the unit, for all histories; tied to /repo by differential execution; known finding KF-bitmap-wide excluded by an explicit clause. The whole PPPoE server around its IPPool is a further component (pppoesrv): pool_conservation and allocated_accounted / no_residue_without_sweep hold for every frame history (Spec.C16PppoeWhole), and its monitor is proved silent on the model.",
    note="Trusted: as C01. Bitmap theorems assume < 2^64 units (GoodCfg); the complement is recorded as a known finding."),
  "C16": dict(design="DESIGN.md §7 C16",
-   technique="Lean 4 proof: exactly-once teardown invariant + induction over creation/termination histories of the SessionTeardown model, release lemmas over the PPPoE server model; differential correspondence against the real code; residue/double-stop monitors on the implementation",
-   text="Machine-checked theorems (stop_and_cleanup_at_most_once, terminated_holds_nothing, cleanup_idempotent, terminate_tears_down, padt_owner_only, padt_releases, lcp_term_releases) over executable Lean models of pkg/pppoe/teardown.go and the PPPoE server's termination paths for all histories incl. repeated terminations; tied to /repo by differential execution with a loopback RADIUS accounting server and recording callbacks.",
+   technique="Lean 4 proof: exactly-once teardown invariant + induction over creation/termination histories of the SessionTeardown model, release lemmas over the PPPoE server model; differential correspondence against the real code; residue/double-stop monitors on the implementation; go/ast translator (extractpaths) regenerating the termination-path table on every run with kernel-decided coverage theorems; refinement proof that the server monitor is silent on every model history",
+   text="Machine-checked theorems (stop_and_cleanup_at_most_once, terminated_holds_nothing, cleanup_idempotent, terminate_tears_down, padt_owner_only, padt_releases, lcp_term_releases) over executable Lean models of pkg/pppoe/teardown.go and the PPPoE server's termination paths for all histories incl. repeated terminations; tied to /repo by differential execution with a loopback RADIUS accounting server and recording callbacks. Spec.C16Paths (regenerated table of the twelve termination entry points): every_termination_path_releases, every_entry_point_extracted, known_gaps_are_real. Spec.C16PppoeWhole: monitor_silent_on_model, pool_conservation, no_residue_without_sweep, allocated_accounted for every frame history. Spec.C16SubMgr (subscriber.Manager with interleaved terminations) and Spec.C16Dhcp (DHCPv4 release/decline/expiry/supersede with NAT, QoS, cache, pool, accounting).",
    note="Trusted: Lean kernel + standard axioms; hand-written models validated by the correspondence run; harness and bngdrv. Concurrent terminations modelled as sequential (mutex-protected cleanup). DHCP termination paths are added by checks/c16_dhcp.py when built; the idle-sweep leak is a recorded known finding."),
  "C11": dict(design="DESIGN.md §7 C11",
    technique="Lean 4 proof over transition tables REGENERATED from the Go source by a go/ast translator on every run (finite table facts by decide +kernel, induction over event lists generic in the table); differential correspondence of the interpreted automaton against the real LCP/IPCP/IPv6CP state machines; monitor on the real automata",
